@@ -467,6 +467,28 @@ impl TryFrom<Option<&SubtypeElements>> for PerVisibleRangeConstraints {
     }
 }
 
+impl Constraint {
+    /// Whether the constraint can restrict the alphabet of a character string type: it has
+    /// a permitted-alphabet constraint (`FROM`) or a contained subtype (which may carry one)
+    /// among its elements. A string given as a value constraint, `IA5String ("abc")`, is not
+    /// PER-visible (X.691 10.3.14) and leaves the alphabet as it is.
+    pub(crate) fn restricts_alphabet(&self) -> bool {
+        fn element(e: &SubtypeElements) -> bool {
+            matches!(
+                e,
+                SubtypeElements::PermittedAlphabet(_) | SubtypeElements::ContainedSubtype { .. }
+            )
+        }
+        fn any(e: &ElementOrSetOperation) -> bool {
+            match e {
+                ElementOrSetOperation::Element(e) => element(e),
+                ElementOrSetOperation::SetOperation(s) => element(&s.base) || any(&s.operant),
+            }
+        }
+        matches!(self, Constraint::Subtype(c) if any(&c.set))
+    }
+}
+
 impl PerVisible for Constraint {
     fn per_visible(&self) -> bool {
         match self {
